@@ -15,9 +15,16 @@ Probes(sh) ==
               : m \in DOMAIN sh}
   \cup {Req("activate", "m", nm, Null) : nm \in {"nope", "pa", ""}}
 
-ASSUME \A id \in ShapeIds(Families) :
-   PrintT(<<"NODE", ToJson([sid |-> id, shape |-> ShapeOf(id), desc |-> Described(ShapeOf(id)),
-                            probes |-> Probes(ShapeOf(id))])>>)
+(* every shape plain; the shapes of family A for two datatypes in every class-hierarchy variant *)
+Nodes == {<<id, 1>> : id \in ShapeIds(Families)}
+         \cup {<<id, v>> : id \in {<<"A", "f">>, <<"A", "e">>} \cap ShapeIds(Families), v \in 2 .. Len(Variants)}
+         \cup (IF "C2" \in Families THEN   \* thorough: every datatype {<<id, v>> : id \in IdsOf("A"), v \in 2 .. Len(Variants)} ELSE {})
+ASSUME \A nd \in Nodes :
+   LET var == Variants[nd[2]]
+       sh == WithFeatures(ShapeOf(nd[1]), var.feats)
+   IN PrintT(<<"NODE", ToJson([sid |-> <<nd[1], nd[2]>>, shape |-> sh, desc |-> Described(sh), probes |-> Probes(sh),
+                              feats |-> var.feats, base |-> var.base,
+                              expfeatures |-> FeaturesOf(var.feats), expiface |-> IfaceOf(var.base)])>>)
 
 VARIABLE x
 GInit == x = 0 /\ shape = <<>> /\ cache = <<>> /\ last = <<>>
